@@ -25,6 +25,7 @@ class Worker:
 
     def start(self):
         e = dict(os.environ)
+        e["RUST_BACKTRACE"] = "0"
         if self.env:
             e.update(self.env)
         self.p = subprocess.Popen(self.argv, stdin=subprocess.PIPE, stdout=subprocess.PIPE, stderr=subprocess.PIPE, env=e)
